@@ -278,5 +278,18 @@ Definition decode_op (l : list Z) : op :=
   | _ => OBad
   end.
 
+(* UpsertServer(u, Weight(w1), Weight(w2)): the options are applied in order to a copy of the server (an existing one) or
+   to a local value (a new one); when one of them fails the call returns the error and nothing has changed; otherwise
+   the last weight wins. *)
+Definition upsert2 (dw : Z) (s : st) (u : url) (w1 w2 : Z) : st * bool :=
+  if (w1 <? 0) || (w2 <? 0) then (s, false) else upsert dw s u (Some w2).
+
+(* [8; key; id; w1; w2]: such an upsert; everything else as decode_op says *)
+Definition xstep (dw : Z) (sticky : bool) (s : st) (l : list Z) : st * list Z :=
+  match l with
+  | [8; k; i; w1; w2] => let '(s1, ok) := upsert2 dw s (k, i) w1 w2 in (s1, zbool ok :: dump s1)
+  | _ => step dw sticky s (decode_op l)
+  end.
+
 Definition run (cfg : list Z) (ops : list (list Z)) : list (list Z) :=
-  run_from (step (znth cfg 0) (negb (znth cfg 1 =? 0))) init (map decode_op ops).
+  run_from (xstep (znth cfg 0) (negb (znth cfg 1 =? 0))) init ops.
